@@ -315,6 +315,9 @@ pub mod net {
         pub fn accept(&self) -> Accept<'_> {
             Accept { l: self }
         }
+        pub fn local_addr(&self) -> io::Result<SocketAddr> {
+            Ok(SocketAddr::new(IpAddr::V4(Ipv4Addr::new(10, 0, 0, 2)), 80))
+        }
     }
     pub struct Accept<'a> {
         l: &'a TcpListener,
@@ -339,6 +342,22 @@ pub mod net {
     impl TcpStream {
         pub fn sim_conn(&self) -> usize {
             self.ep.conn
+        }
+        // socket options and addresses: inert in simulation (latency is a tape decision, not a socket option)
+        pub fn peer_addr(&self) -> io::Result<SocketAddr> {
+            Ok(SocketAddr::new(IpAddr::V4(Ipv4Addr::new(10, 0, 0, 1)), 40000 + (self.ep.conn % 20000) as u16))
+        }
+        pub fn local_addr(&self) -> io::Result<SocketAddr> {
+            Ok(SocketAddr::new(IpAddr::V4(Ipv4Addr::new(10, 0, 0, 2)), 80))
+        }
+        pub fn set_nodelay(&self, _nodelay: bool) -> io::Result<()> {
+            Ok(())
+        }
+        pub fn nodelay(&self) -> io::Result<bool> {
+            Ok(false)
+        }
+        pub fn set_ttl(&self, _ttl: u32) -> io::Result<()> {
+            Ok(())
         }
     }
     impl AsyncRead for TcpStream {
